@@ -212,9 +212,11 @@ func verifH_C26_jws_screen() {
 	verifC26BodyReads, verifC26Resolver, verifC26Leaks = 0, 0, 0
 	h := &HttpServer{server: &Server{}}
 	resolves := verifNondetBool("resolves")
+	handed := ""
 	h.introspect = &tokenIntrospection{
 		resolver: func(credential string) (TokenIdentity, bool, error) {
 			verifC26Resolver++
+			handed = credential
 			if !resolves {
 				return TokenIdentity{}, false, nil
 			}
@@ -245,6 +247,7 @@ func verifH_C26_jws_screen() {
 	} else {
 		verifReach("opaque-key")
 		verifAssert(verifC26Resolver == 1, "any other credential is resolved once")
+		verifAssert(handed == verifC26Token && !verifC26JWS(handed), "and the resolver is handed exactly the credential that was screened — nothing JWS-shaped is ever resolved")
 		if resolves {
 			verifAssert(rw.status == 200, "resolved: 200")
 		} else {
